@@ -686,6 +686,53 @@ func checkBlack(bm *gozxing.BitMatrix, m *viewModel, what string) string {
 	return ""
 }
 
+// checkRows reads a few rows through BinaryBitmap.GetBlackRow (re-using the
+// returned array) and compares them with the row model of the global method.
+func checkRows(bmp *gozxing.BinaryBitmap, m *viewModel, bl bool, r *kit.RNG, probe func(string), fail func(string, string, ...interface{}) (*fail17, bool), what string) (*fail17, bool) {
+	var arr *gozxing.BitArray
+	for i := 0; i < 4; i++ {
+		y := r.Intn(m.h)
+		row, err := bmp.GetBlackRow(y, arr)
+		lum := make([]int, m.w)
+		for x := range lum {
+			lum[x] = int(m.at(x, y))
+		}
+		exp, ok := globalRowModel(lum)
+		if err != nil {
+			if !isNotFound(err) {
+				return fail("error-kind", "%sGetBlackRow returned %T %v", what, err, err)
+			}
+			if ok {
+				return fail("row-rejected", "%sGetBlackRow(%d) reported no contrast although the row's histogram has two separated peaks", what, y)
+			}
+			continue
+		}
+		if row == nil || row.GetSize() < m.w {
+			return fail("row", "%sGetBlackRow returned an array shorter than the width", what)
+		}
+		arr = row
+		if !ok {
+			return fail("row-contrast", "%sGetBlackRow(%d) returned a row although the row's histogram has no two separated peaks", what, y)
+		}
+		for x := 0; x < m.w; x++ {
+			if row.Get(x) != exp[x] {
+				l, c, rr := lum[maxI(x-1, 0)], lum[x], lum[minI(x+1, m.w-1)]
+				cls := "row-grey"
+				if bl {
+					cls = "row-bilevel"
+				}
+				return fail(cls, "%sGetBlackRow(%d) pixel %d: neighbourhood %d,%d,%d gives black=%v, the sharpened-threshold model says %v (width %d)", what, y, x, l, c, rr, row.Get(x), exp[x], m.w)
+			}
+		}
+		if bl {
+			probe("probe.bilevel_black_row_checked")
+		} else {
+			probe("probe.grey_black_row_checked")
+		}
+	}
+	return nil, false
+}
+
 func (w *world17) binarize(op Op17, s gozxing.LuminanceSource, m *viewModel, probe func(string), fail func(string, string, ...interface{}) (*fail17, bool)) (*fail17, bool) {
 	var bin gozxing.Binarizer
 	name := "hybrid"
@@ -732,60 +779,9 @@ func (w *world17) binarize(op Op17, s gozxing.LuminanceSource, m *viewModel, pro
 		}
 	}
 	// rows of the global method, with a reused array
-	var arr *gozxing.BitArray
 	r := kit.NewRNG(op.V)
-	for i := 0; i < 4; i++ {
-		y := r.Intn(m.h)
-		row, err := bmp.GetBlackRow(y, arr)
-		if err != nil {
-			if !isNotFound(err) {
-				return fail("error-kind", "GetBlackRow returned %T %v", err, err)
-			}
-			lum := make([]int, m.w)
-			for x := range lum {
-				lum[x] = int(m.at(x, y))
-			}
-			if _, ok := globalRowModel(lum); ok {
-				return fail("row-rejected", "GetBlackRow(%d) reported no contrast although the row's histogram has two separated peaks", y)
-			}
-			continue
-		}
-		if row == nil || row.GetSize() < m.w {
-			return fail("row", "GetBlackRow returned an array shorter than the width")
-		}
-		arr = row
-		if !bl {
-			// the documented sharpened threshold, for arbitrary grey rows
-			lum := make([]int, m.w)
-			for x := range lum {
-				lum[x] = int(m.at(x, y))
-			}
-			exp, ok := globalRowModel(lum)
-			if !ok {
-				return fail("row-contrast", "GetBlackRow(%d) returned a row although the row's histogram has no two separated peaks", y)
-			}
-			for x := 0; x < m.w; x++ {
-				if row.Get(x) != exp[x] {
-					l, c, rr := lum[maxI(x-1, 0)], lum[x], lum[minI(x+1, m.w-1)]
-					return fail("row-grey", "GetBlackRow(%d) pixel %d: neighbourhood %d,%d,%d gives black=%v, the sharpened-threshold model says %v (width %d)", y, x, l, c, rr, row.Get(x), exp[x], m.w)
-				}
-			}
-			probe("probe.grey_black_row_checked")
-		}
-		if bl {
-			// sharpened threshold on a bilevel row: interior pixel black iff
-			// luminance 0; the two edge pixels are never set (width >= 3)
-			for x := 0; x < m.w; x++ {
-				exp := m.at(x, y) == 0
-				if m.w >= 3 && (x == 0 || x == m.w-1) {
-					exp = false
-				}
-				if row.Get(x) != exp {
-					return fail("row-bilevel", "GetBlackRow(%d) pixel %d: luminance %d, black=%v (width %d)", y, x, m.at(x, y), row.Get(x), m.w)
-				}
-			}
-			probe("probe.bilevel_black_row_checked")
-		}
+	if f, sk := checkRows(bmp, m, bl, r, probe, fail, ""); f != nil {
+		return f, sk
 	}
 	// crop: the cached matrix must not survive
 	if m.w >= 4 && m.h >= 4 && bmp.IsCropSupported() {
@@ -809,6 +805,10 @@ func (w *world17) binarize(op Op17, s gozxing.LuminanceSource, m *viewModel, pro
 			}
 		} else if !isNotFound(err) {
 			return fail("error-kind", "cropped GetBlackMatrix returned %T %v", err, err)
+		}
+		// rows of the derived bitmap (its binariser was created from the parent's)
+		if f, sk := checkRows(cb, cm, cm.bilevel(), r, probe, fail, "after BinaryBitmap.Crop: "); f != nil {
+			return f, sk
 		}
 	}
 	if bmp.IsRotateSupported() {
